@@ -34,11 +34,44 @@ def gen_cases(ctx, count, gammas):
     return out
 
 
+def gen_single_precision(ctx, count):
+    """jax_double_precision=False in a process where 64-bit mode was never enabled: value vectors with a LARGE common level and
+    small gaps between action values (1024 + j/64: 16 bits, exact in float32 through one backup at gamma = 1/2)"""
+    out = []
+    tries = 0
+    while len(out) < count and tries < count * 30:
+        tries += 1
+        sub = ctx.rng.randrange(10 ** 9)
+        rng = random.Random(sub)
+        spec = mdpgen.gen_mdp(rng, family=rng.choice(["tab", "det", "ties"]), nS=rng.randint(2, 5), nA=rng.randint(2, 3), nE=rng.randint(1, 2), denom=2, rscale=0, rmax=rng.choice([0, 0, 1]), init="zero")
+        g = F(1, 2)
+        V = [F(1024) + F(rng.randrange(8), 64) for _ in range(spec["nS"])]
+        ref = mdpgen.Ref(spec)
+        tv = ref.sweep(V, g)
+        ref.greedy(tv, g)
+        if ref.max_bits > 20:
+            continue
+        # the greedy action must be decided by a gap that is SMALL relative to the level (otherwise nothing is exercised)
+        decisive = False
+        for vec in (V, tv):
+            for s_ in range(spec["nS"]):
+                qs = [ref.q(vec, s_, b, g) for b in range(spec["nA"])]
+                best = max(qs)
+                near = [b for b in range(spec["nA"]) if qs[b] >= best - F(1, 16)]
+                if qs.index(best) != near[0]:
+                    decisive = True       # an earlier action is within 1/16 of the maximum but is NOT a maximiser
+        if not decisive:
+            continue
+        out.append({"seed": sub, "spec": spec, "g": str(g), "g0": str(g), "V": [str(x) for x in V], "mb": solverun.pick_mb(rng, spec["nS"]), "bits": ref.max_bits, "f32": True})
+    return out
+
+
 def job_of(c):
     g0 = c.get("g0", c["g"])
     pre = [["solve", 1], ["set_gamma", fl(c["g"])]] if g0 != c["g"] else []
-    return {"kind": "solve_ops", "problem": c["spec"], "solver": "vi",
-            "config": {"gamma": fl(g0), "epsilon": fl(EPS), "max_batch_size": c["mb"]},
+    extra = {"jax_double_precision": False} if c.get("f32") else {}
+    return {"kind": "solve_ops", "problem": c["spec"], "solver": "vi", "x64_first": not c.get("f32"),
+            "config": dict({"gamma": fl(g0), "epsilon": fl(EPS), "max_batch_size": c["mb"]}, **extra),
             "ops": pre + [["set_values", c["V"]], ["extract_policy"], ["solve", 1]]}
 
 
@@ -50,6 +83,8 @@ def oracle(c, r):
     g = F(c["g"])
     V = fracs(c["V"])
     o = r["obs"][-1]
+    if c.get("f32") and o.get("dtype") != "float32":
+        return f"single precision requested but the values are {o.get('dtype')}"
     tv = fracs(o["values"])
     want = ref.sweep(V, g)
     if tv != want:
@@ -92,7 +127,7 @@ def coq_item(c, r, k, devices):
 def run(ctx, build, gammas=None, devices_list=None):
     gammas = gammas or [F(1, 4), F(1, 2), F(3, 4), F(1), F(0)]
     count = 80 if ctx.tier == "quick" else 1500
-    cs = gen_cases(ctx, count, gammas)
+    cs = gen_cases(ctx, count, gammas) + gen_single_precision(ctx, 6 if ctx.tier == "quick" else 60)
     devices_list = devices_list or ([1, 2] if ctx.tier == "quick" else [1, 2, 3])
     corr, viols = [], []
     total = 0
@@ -102,7 +137,14 @@ def run(ctx, build, gammas=None, devices_list=None):
         if dv > 1:
             # several batches PER DEVICE (the layout in which the order of the device and batch axes matters)
             sub = [dict(c, mb=1 + (i % 2)) if i % 2 == 0 else c for i, c in enumerate(sub)]
-        res = core.run_workers(ctx, [job_of(c) for c in sub], devices=dv)
+        # single-precision cases in processes of their own, and all of them in ONE process: 64-bit mode is process-global and the
+        # double-precision jobs switch it on
+        plain = [c for c in sub if not c.get("f32")]
+        f32 = [c for c in sub if c.get("f32")]
+        rmap = {id(c): r for c, r in zip(plain, core.run_workers(ctx, [job_of(c) for c in plain], devices=dv))}
+        if f32:
+            rmap.update({id(c): r for c, r in zip(f32, core.run_worker(ctx, [job_of(c) for c in f32], devices=dv))})
+        res = [rmap[id(c)] for c in sub]
         items, idx = [], []
         for k, (c, r) in enumerate(zip(sub, res)):
             total += 1
@@ -137,6 +179,7 @@ def run(ctx, build, gammas=None, devices_list=None):
                      "gamma": c["g"], "V": c["V"], "max_batch_size": c["mb"], "bits": c["bits"]} for c in cs[:5]],
         "traces_validated_against_impl": total,
         "families": fam, "gammas": sorted({c["g"] for c in cs}), "device_counts": devices_list,
+        "single_precision_cases_large_level_small_gaps": sum(1 for c in cs if c.get("f32")),
         "cases_with_gamma_reassigned_after_first_trace": sum(1 for c in cs if c.get("g0", c["g"]) != c["g"]),
         "multi_device_cases_with_several_batches_per_device": sum(1 for i, c in enumerate(cs[: max(16, len(cs) // 6)]) if i % 2 == 0 and c["spec"]["nS"] > 2 * len(devices_list[1:2] or [1]) * (1 + (i % 2))),
         "padded_last_batch_cases": sum(1 for c in cs if c["spec"]["nS"] % min(c["mb"], c["spec"]["nS"]) != 0),
@@ -166,6 +209,6 @@ def replay(ctx, build, data):
     inp = data.get("violation", {}).get("input")
     if not inp:
         return {"fails": False, "note": "no concrete input"}
-    r = core.run_workers(ctx, [job_of(inp["case"])], devices=inp.get("devices", 1))[0]
+    r = core.run_worker(ctx, [job_of(inp["case"])], devices=inp.get("devices", 1))[0]
     why = oracle(inp["case"], r)
     return {"fails": bool(why), "why": why}
